@@ -43,7 +43,7 @@ def cases(tier, seed):
     preds = ['b = 2', 'b > 1', 'b', 'c', 'c = "x"', 'b and c', 'b or c', '$ > 2', '$ = 3', 'true', 'false', '0', '1', '-1', '1.5',
              '[0,1]', '[0,0]', '[]', '"s"', '""', '{}', '{"a":1}', 'nothing', 'b[0]', '$count(b) > 1', 'c in ["x","z"]', '$$.k',
              '[1..2]', '$string() = "2"', 'b = 1 or b = 3', '$boolean(b)', 'null']
-    heads = ['a', 'a.b', 'a.b.c', '$', '$.a', '(a)', '(a.b)', 'a.*', '[1,2,3]', '[[1,2],[3]]', '$v', '$append(a, 9)', '$$.a', 'a[]']
+    heads = ['a', 'a.b', 'a.b.c', '$', '$.a', '(a)', '(a.b)', '[1,2,3]', '[[1,2],[3]]', '$v', '$append(a, 9)', '$$.a', 'a[]']
     for h, p in itertools.product(heads, preds):
         for d in (docs if tier != 'quick' else rng.sample(docs, 3)):
             e = '%s[%s]' % (h, p)
